@@ -1,2 +1,146 @@
--- Driver stub for C17 (replaced when the property's model driver is written).
-def main : IO Unit := IO.println "C17: no driver yet"
+import TsVerif.Common.IO
+import TsVerif.Common.Tree
+import TsVerif.C17.Judge
+/-!
+Driver for C17.  Reads the case stream written by `harness/src/bin/c17` and prints one line per case:
+
+* `run lossy`  → `<id> kind=L corr=<orig|fixed|both|NEITHER> spec=<ok|DIFF> judge=<ok|FAIL> cause=<…>`
+  (`corr`: which port of `LossyUtf8` reproduces the implementation; `spec`: `lossySpec` vs
+  `String::from_utf8_lossy`; `judge`: implementation = `lossySpec`);
+* `run render` → `<id> kind=R corr=… wf=<0|1> judge=<ok|FAIL|panic> cause=<…>`;
+* `run hl`     → `<id> kind=H corr=… wf=<ok|FAIL> inj=<ok|FAIL> html=<ok|FAIL|panic> loc=<ok|FAIL> cause=<…>
+                  nsp=<spans> ninj=<injections> depth=<max nesting> err=<…>`.
+-/
+open TsVerif TsVerif.C17
+
+structure St where
+  id : String := ""
+  bytes : Bytes := []
+  impl : Bytes := []
+  std : Bytes := []
+  src : Bytes := []
+  evs : List Ev := []
+  crh : Option Nat := none
+  html : Option Bytes := some []
+  lines : List Nat := []
+  err : String := "-"
+  langof : List Nat := []
+  injs : List Inj := []
+  locals : List (Nat × Nat × Nat × Nat) := []
+
+def unhx (s : String) : Bytes := if s == "-" then [] else unhexBytes s
+
+def parseEv (t : String) : Option Ev :=
+  if t == "E" then some .stop
+  else if t.startsWith "H" then some (.start (natOf (t.drop 1).toString))
+  else if t.startsWith "S" then
+    match ((t.drop 1).toString).splitOn "-" with
+    | [a, b] => some (.source (natOf a) (natOf b))
+    | _ => none
+  else none
+
+def parseEvs (s : String) : List Ev :=
+  if s == "-" then [] else (s.splitOn ",").filterMap parseEv
+
+def parseNats (s : String) : List Nat :=
+  if s == "-" then [] else (s.splitOn ",").map natOf
+
+def parseRanges (s : String) : List (Nat × Nat) :=
+  (s.splitOn ",").filterMap fun t => match t.splitOn "-" with
+    | [a, b] => some (natOf a, natOf b)
+    | _ => none
+
+def parseQuads (s : String) : List (Nat × Nat × Nat × Nat) :=
+  (s.splitOn ",").filterMap fun t => match t.splitOn "-" with
+    | [a, b, c, d] => some (natOf a, natOf b, natOf c, natOf d)
+    | _ => none
+
+def attrOf (h : Nat) : Bytes := ("class=c" ++ toString h).toUTF8.toList.map (·.toNat)
+
+def variantName (o f : Bool) : String :=
+  if o && f then "both" else if o then "orig" else if f then "fixed" else "NEITHER"
+
+def runLossy (s : St) : String :=
+  let o := decide (lossy s.bytes = s.impl)
+  let f := decide (lossyFixed s.bytes = s.impl)
+  let spec := lossySpec s.bytes
+  let specOk := decide (spec = s.std)
+  let jOk := decide (s.impl = spec)
+  let cause := if jOk then "-" else if o && tailLoss s.bytes then
+      (if endsTruncated s.bytes then "lossy-chunk-end-truncated" else "lossy-chunk-end-invalid") else "other"
+  s!"{s.id} kind=L corr={variantName o f} spec={if specOk then "ok" else "DIFF"} judge={if jOk then "ok" else "FAIL"} cause={cause} loss={tailLoss s.bytes}"
+
+def chunksOf (evs : List Ev) (src : Bytes) : List Bytes :=
+  evs.filterMap fun | .source a b => some (sliceT src a b) | _ => none
+
+/-- Compare the model renderer (both decoders) with the implementation's html and line offsets. -/
+def corrRender (s : St) : String × Bool :=
+  let cfg : RCfg := { attr := attrOf, crh := s.crh }
+  match s.html with
+  | none =>
+    (if (render lossy cfg s.evs s.src).isNone then "both" else "NEITHER-model-does-not-panic", true)
+  | some html =>
+    let same (r : Option RState) : Bool := match r with
+      | some st => decide (st.html = html) && decide (st.lineOffsets = s.lines)
+      | none => false
+    let o := same (render lossy cfg s.evs s.src)
+    let f := same (render lossyFixed cfg s.evs s.src)
+    (variantName o f, false)
+
+def htmlJudge (s : St) : String × String :=
+  match s.html with
+  | none => ("panic", "-")
+  | some html =>
+    if judgeHtml lossySpec s.evs s.src html then ("ok", "-")
+    else
+      let chunks := chunksOf s.evs s.src
+      let cause :=
+        if judgeHtml lossy s.evs s.src html && chunks.any tailLoss then
+          (if chunks.any endsTruncated then "lossy-chunk-end-truncated" else "lossy-chunk-end-invalid")
+        else "other"
+      ("FAIL", cause)
+
+def runRender (s : St) : String :=
+  let (corr, _) := corrRender s
+  let (j, cause) := htmlJudge s
+  let wf := wellFormed s.src.length s.evs
+  s!"{s.id} kind=R corr={corr} wf={if wf then 1 else 0} judge={j} cause={cause}"
+
+def maxDepth (evs : List Ev) : Nat :=
+  (evs.foldl (fun (p : Nat × Nat) ev => match ev with
+    | .start _ => (p.1 + 1, max p.2 (p.1 + 1))
+    | .stop => (p.1 - 1, p.2)
+    | _ => p) (0, 0)).2
+
+def runHl (s : St) : String :=
+  let (corr, _) := corrRender s
+  let (j, cause) := htmlJudge s
+  let wf := judgeEvents s.src.length s.evs
+  let langOf := fun h => s.langof.getD h 0
+  let inj := judgeInjected langOf s.injs s.evs
+  let loc := judgeLocals s.locals s.evs
+  let ok (b : Bool) := if b then "ok" else "FAIL"
+  s!"{s.id} kind=H corr={corr} wf={ok wf} inj={ok inj} html={j} loc={ok loc} cause={cause} nsp={(spans s.evs).length} ninj={s.injs.length} nloc={s.locals.length} depth={maxDepth s.evs} err={s.err}"
+
+def step (s : St) (line : String) : IO St := do
+  match line.splitOn " " with
+  | ["case", id] => return { id := id }
+  | ["bytes", h] => return { s with bytes := unhx h }
+  | ["impl", h] => return { s with impl := unhx h }
+  | ["std", h] => return { s with std := unhx h }
+  | ["src", h] => return { s with src := unhx h }
+  | ["evs", e] => return { s with evs := parseEvs e }
+  | ["crh", c] => return { s with crh := if c == "-" then none else some (natOf c) }
+  | ["html", h] => return { s with html := if h == "PANIC" then none else some (unhx h) }
+  | ["lines", l] => return { s with lines := parseNats l }
+  | ["error", e] => return { s with err := e }
+  | ["langof", l] => return { s with langof := parseNats l }
+  | ["inj", l, r] => return { s with injs := s.injs ++ [{ lang := natOf l, ranges := parseRanges r }] }
+  | ["locals", p] => return { s with locals := parseQuads p }
+  | ["run", "lossy"] => IO.println (runLossy s); return s
+  | ["run", "render"] => IO.println (runRender s); return s
+  | ["run", "hl"] => IO.println (runHl s); return s
+  | _ => return s
+
+def main : IO Unit := do
+  let _ ← foldLines (← IO.getStdin) ({} : St) step
